@@ -141,9 +141,46 @@ func lcAbacoSelfEnd(idx int) string {
 	dastard.VerifPointsOn()
 	dastard.VerifGate("loop.processed")
 	var holding atomic.Bool
+	stopReleaser := lcGateReleaser(&holding)
+	arm()
+	s := h.spawnStart()
+	if !s.wait(5*time.Second) || s.ret != 0 {
+		stopReleaser()
+		return h.finish(true)
+	}
+	h.flagOn()
+	lcWaitTrace(3*time.Second, func(tr []dastard.VerifEvent) bool { return lcCount(tr, "loop.processed") >= 3 })
+	// from now on every processed block is held for 300 ms; only when one such block has gone by is the stream
+	// stopped, so the LAST block (whichever it is) is certainly held
+	holding.Store(true)
+	base := lcCount(dastard.VerifTrace(0), "loop.processed")
+	lcWaitTrace(3*time.Second, func(tr []dastard.VerifEvent) bool { return lcCount(tr, "loop.processed") >= base+2 })
+	gen.stopped.Store(true)
+	t0 := time.Now()
+	ended := lcWaitTrace(7500*time.Millisecond, func([]dastard.VerifEvent) bool { return h.ds.GetState() == dastard.Inactive })
+	dastard.VerifNote(fmt.Sprintf("obs.selfend.%d.%d.%d", b2i(ended), int(h.ds.GetState()), int(time.Since(t0)/time.Second)))
+	stopReleaser()
+	h.openGates()
+	if ended {
+		// restartable: re-arm the devices (as a client's Configure would) and run again
+		gen.stopped.Store(false)
+		arm()
+		s2 := h.spawnStart()
+		if s2.wait(5*time.Second) && s2.ret == 0 {
+			lcWaitTrace(2*time.Second, func(tr []dastard.VerifEvent) bool {
+				return lcCount(tr, "start.runStarted") >= 2 && lcCount(tr, "loop.processed") >= 4
+			})
+		}
+	}
+	return h.finish(true)
+}
+
+// lcGateReleaser lets every goroutine parked at a gate through at once while `holding` is false and 300 ms late
+// once it is true; the returned function stops it.
+func lcGateReleaser(holding *atomic.Bool) (stop func()) {
 	stopRelease := make(chan struct{})
 	relDone := make(chan struct{})
-	go func() { // lets the loop through its gate at once while data flows, 300 ms late once the stream has stopped
+	go func() {
 		defer close(relDone)
 		for {
 			select {
@@ -164,37 +201,8 @@ func lcAbacoSelfEnd(idx int) string {
 			}
 		}
 	}()
-	arm()
-	s := h.spawnStart()
-	if !s.wait(5*time.Second) || s.ret != 0 {
+	return func() {
 		close(stopRelease)
 		<-relDone
-		return h.finish(true)
 	}
-	h.flagOn()
-	lcWaitTrace(3*time.Second, func(tr []dastard.VerifEvent) bool { return lcCount(tr, "loop.processed") >= 3 })
-	// from now on every processed block is held for 300 ms; only when one such block has gone by is the stream
-	// stopped, so the LAST block (whichever it is) is certainly held
-	holding.Store(true)
-	base := lcCount(dastard.VerifTrace(0), "loop.processed")
-	lcWaitTrace(3*time.Second, func(tr []dastard.VerifEvent) bool { return lcCount(tr, "loop.processed") >= base+2 })
-	gen.stopped.Store(true)
-	t0 := time.Now()
-	ended := lcWaitTrace(7500*time.Millisecond, func([]dastard.VerifEvent) bool { return h.ds.GetState() == dastard.Inactive })
-	dastard.VerifNote(fmt.Sprintf("obs.selfend.%d.%d.%d", b2i(ended), int(h.ds.GetState()), int(time.Since(t0)/time.Second)))
-	close(stopRelease)
-	<-relDone
-	h.openGates()
-	if ended {
-		// restartable: re-arm the devices (as a client's Configure would) and run again
-		gen.stopped.Store(false)
-		arm()
-		s2 := h.spawnStart()
-		if s2.wait(5*time.Second) && s2.ret == 0 {
-			lcWaitTrace(2*time.Second, func(tr []dastard.VerifEvent) bool {
-				return lcCount(tr, "start.runStarted") >= 2 && lcCount(tr, "loop.processed") >= 4
-			})
-		}
-	}
-	return h.finish(true)
 }
